@@ -171,22 +171,28 @@ class Harnessed(object):
             self.hooks[kind](self, payload)
 
     def on_cell(self, c, setter):
-        self.events.append({'k': 'cell', 'c': self.cellrec(c)})
+        # the event is read off the objects after whatever the listener does first (a nested evaluation must
+        # not disturb the cells this listener was handed)
+        frame = self.events
         self.hook('cell', c.label)
+        frame.append({'k': 'cell', 'c': self.cellrec(c)})
         key = cps(plain_key(c.label))
         for s in self.env['cellsets']:
             if s['key'] == key:
                 for v in s['vals']:
                     setter(dec(v))
+        self.hook('cell:post', c.label)
 
     def on_range(self, a, b, setter):
-        self.events.append({'k': 'range', 's': self.cellrec(a), 'e': self.cellrec(b)})
+        frame = self.events
         self.hook('range', a.label)
+        frame.append({'k': 'range', 's': self.cellrec(a), 'e': self.cellrec(b)})
         key = cps(plain_key(a.label) + ':' + plain_key(b.label))
         for s in self.env['rangesets']:
             if s['key'] == key:
                 for v in s['vals']:
                     setter(dec(v))
+        self.hook('range:post', a.label)
 
     def on_var(self, name, setter):
         self.events.append({'k': 'var', 'name': name})
@@ -195,6 +201,7 @@ class Harnessed(object):
             if s['key'] == name:
                 for v in s['vals']:
                     setter(dec(v))
+        self.hook('var:post', name)
 
     def on_fn(self, name, args, setter):
         self.events.append({'k': 'fn', 'name': name, 'args': [enc(a) for a in args]})
@@ -203,6 +210,7 @@ class Harnessed(object):
             if s['key'] == name:
                 for v in s['vals']:
                     setter(dec(v))
+        self.hook('fn:post', name)
 
     def parse(self, text):
         del self.frames[0][0][:], self.frames[0][1][:]
